@@ -3,10 +3,11 @@
 use crate::framework::{DynScenario, Erased};
 use std::sync::Arc;
 
+pub mod cache;
 pub mod lru;
 
 pub fn all() -> Vec<Box<dyn DynScenario>> {
-    vec![Box::new(Erased(Arc::new(lru::Lru)))]
+    vec![Box::new(Erased(Arc::new(lru::Lru))), Box::new(Erased(Arc::new(cache::Cache)))]
 }
 
 pub fn by_property(id: &str) -> Option<Box<dyn DynScenario>> {
@@ -25,4 +26,47 @@ pub fn paused_runtime() -> tokio::runtime::Runtime {
 
 pub fn hex(b: &[u8]) -> String {
     hex::encode(b)
+}
+
+/// A plain string cache key (benign names: no separators, no dots).
+#[derive(Debug, Clone, PartialEq, Eq, Hash)]
+pub struct SimKey(pub String);
+impl cascette_cache::key::CacheKey for SimKey {
+    fn as_cache_key(&self) -> &str {
+        &self.0
+    }
+}
+impl SimKey {
+    pub fn n(i: usize) -> Self {
+        SimKey(format!("k{i}"))
+    }
+}
+
+/// Deterministic payload: `len` bytes derived from `tag` (the first 8 bytes are the tag
+/// itself when there is room, so every written value is attributable to one write).
+pub fn payload(tag: u64, len: usize) -> Vec<u8> {
+    let mut v = Vec::with_capacity(len);
+    let mut s = tag ^ 0xA5A5_5A5A_1234_5678;
+    let t = tag.to_le_bytes();
+    while v.len() < len {
+        if v.len() < 8 {
+            v.push(t[v.len()]);
+        } else {
+            let x = crate::prng::splitmix64(&mut s).to_le_bytes();
+            let take = (len - v.len()).min(8);
+            v.extend_from_slice(&x[..take]);
+        }
+    }
+    v
+}
+
+/// Advance both clocks: the interposed libc clock first (so that tasks woken by tokio's
+/// timers already see the new wall-clock time), then tokio's paused clock, then let
+/// spawned tasks run.
+pub async fn advance_both(d: std::time::Duration) {
+    crate::seams::advance_ns(d.as_nanos() as u64);
+    tokio::time::advance(d).await;
+    for _ in 0..4 {
+        tokio::task::yield_now().await;
+    }
 }
